@@ -362,6 +362,23 @@ def make_texts(tier, seed):
     repo = repo_grammars()
     for name, t in repo:
         texts.append(("repo:" + name, t))
+    # grammars that stress the type inference and action generation of the default builder (rcomp runs the whole
+    # generator): the AST shapes of gen/astgrammars.py, and annotations on rules whose shape does not fit them
+    import astgrammars as AG
+    for shape, t, _ in AG.handwritten() + AG.odd_name_grammars():
+        texts.append(("ast:" + shape, t))
+    for g in AG.feature_cover(rng, 1):
+        texts.append(("ast:" + g.shape, g.text()))
+    for _ in range(10 if tier == "quick" else 150):
+        g = AG.random_ag(rng)
+        texts.append(("ast:" + g.shape, g.text()))
+    tail = "\nterminals\nNum: /\\d+/;\nId: /[a-z]+/;\nNone: 'none';\nLP: '(';\nRP: ')';\n"
+    bodies = ["A Num | Num", "Num A | Num", "A Num | Num | 'none'", "A Num | Num | '(' Num Id Num ')'", "A Num | EMPTY | Id",
+              "A A | Num", "Num", "Num Id", "EMPTY", "A Num Id | Num", "A Num | Id", "A | Num", "Num A Id | EMPTY",
+              "A Num | A Id | Num", "B", "B | EMPTY", "A B | B | 'none'", "x=A y=Num | z=Num", "Num+ | Id", "Num* Id?"]
+    for ann in ("@vec", "@rest", "@tok", ""):
+        for b in bodies:
+            texts.append(("annshape", "S: '(' A ')';\n%s A: %s;\nB: Num Id;%s" % (ann, b, tail)))
     nmut, nconf = (1500, 250) if tier == "quick" else (12000, 2500)
     seeds = [t for _, t in CONSTRUCTS] + [t for tag, t in ODD if len(t) < 400] + [t for _, t in repo if len(t) < 1500]
     for k in range(nmut):
@@ -380,6 +397,60 @@ def make_texts(tier, seed):
         seen.add(t)
         out.append((o, t))
     return out
+
+
+# --------------------------------------------------------------------------- known-finding classes
+RUST_KEYWORDS = set("as break const continue crate else enum extern false fn for if impl in let loop match mod move mut "
+                    "pub ref return self static struct super trait true type unsafe use where while async await dyn "
+                    "abstract become box do final macro override priv typeof unsized virtual yield try".split())
+
+
+def _snake(n):
+    return re.sub(r"(?<=[a-z0-9])([A-Z])", r"_\1", n).lower()
+
+
+def _keyword_named_symbol(text):
+    """a rule, or a terminal with content (regex / no recognizer), whose snake_case name is a Rust keyword"""
+    head, _, tail = text.partition("terminals")
+    for m in re.finditer(r"(?:^|;)\s*(?:@\w+\s+)?([A-Za-z_]\w*)\s*(?:\{[^}]*\})?\s*:", head):
+        if _snake(m.group(1)) in RUST_KEYWORDS:
+            return True
+    for m in re.finditer(r"(?:^|;)\s*(?:@\w+\s+)?([A-Za-z_]\w*)\s*:\s*([^;]*)", tail):
+        if _snake(m.group(1)) in RUST_KEYWORDS and not m.group(2).lstrip().startswith(("'", '"')):
+            return True
+    return False
+
+
+def _explicit_stop(text):
+    return re.search(r"\bSTOP\b", text.partition("terminals")[0]) is not None
+
+
+# a recorded finding is identified by its key AND by the class of grammar texts it was recorded for; the same panic
+# site on a text outside the class is reported (suffix -outside-known-class)
+KNOWN_CLASSES = [
+    ("panic@syn-", lambda t: _keyword_named_symbol(t)),
+    ("panic@lang/rustemo_actions.rs::int_const", lambda t: re.search(r"\d{10,}", t) is not None),
+    ("panic@table/mod.rs::calculate_reductions:assertion-failed-shifts-len", _explicit_stop),
+    ("panic@table/mod.rs::get_conflicts:internal-error-entered-unreachable-code", _explicit_stop),
+]
+OUTSIDE = "-outside-known-class"
+
+
+def classify_known(key, text):
+    if key is None:
+        return key
+    for prefix, pred in KNOWN_CLASSES:
+        if key.startswith(prefix):
+            try:
+                inside = bool(pred(text))
+            except Exception:
+                inside = False
+            return key if inside else key + OUTSIDE
+    return key
+
+
+def base_key(key):
+    return key[:-len(OUTSIDE)] if key.endswith(OUTSIDE) else key
 
 
 # --------------------------------------------------------------------------- classification
@@ -708,6 +779,7 @@ def run(rep, tier, seed):
             key = loc["panic_key"] if loc else "panic-msg:%s:%s" % (stage, slug(msg))
         else:
             key = "%s:%s" % (k.lower(), stage)
+        key = classify_known(key, c.grammar)
         groups.setdefault(key, []).append((k, stage, msg, c))
     timing["classify_s"] = round(time.time() - t0, 1)
     findings = []
@@ -729,7 +801,7 @@ def run(rep, tier, seed):
         if key.startswith("panic@"):
             # keep the shrunk witness only if the real binary still panics at the same site
             loc2 = site_of(small, c.algo, c.table, c.flags["ps"], c.flags["pse"], stage, msg)
-            if loc2 is None or loc2["panic_key"] != key:
+            if loc2 is None or loc2["panic_key"] != base_key(key) or classify_known(base_key(key), small) != key:
                 small = c.grammar
                 loc2 = site_of(small, c.algo, c.table, c.flags["ps"], c.flags["pse"], stage, msg)
             location = loc2["panic_loc"] if loc2 else None
@@ -771,7 +843,7 @@ def run(rep, tier, seed):
                 by_key.setdefault("timeout:compile", []).append((j, r))
             elif r["panic_loc"]:
                 rc_stats["panics"] += 1
-                by_key.setdefault(r["panic_key"], []).append((j, r))
+                by_key.setdefault(classify_known(r["panic_key"], j[1]), []).append((j, r))
             elif isinstance(r["code"], int) and r["code"] != 0:
                 rc_stats["aborted"] += 1
                 by_key.setdefault("abort:rcomp:%s" % r["code"], []).append((j, r))
@@ -785,7 +857,9 @@ def run(rep, tier, seed):
                 continue
             j, r = min(by_key[key], key=lambda x: len(x[0][1]))
             fl = rcomp_flags(*j[2:])
-            small = shrink_rcomp(j[1], fl, key)
+            small = shrink_rcomp(j[1], fl, base_key(key))
+            if classify_known(base_key(key), small) != key:
+                small = j[1]
             findings.append(dict(key=key, outcome="PANIC" if key.startswith("panic") else key.split(":")[0].upper(),
                                  stage="rcomp (code generation)", message=r["panic_msg"] or "", witness=small,
                                  location=r["panic_loc"],
